@@ -14,7 +14,18 @@
 #define ARENA_SLOTS 24
 #endif
 
-static char arena[ARENA_SLOTS][ARENA_CAP];
+/* one separate 1-D object per slot: a byte written through a char* into a 2-D array makes
+ * cbmc rebuild the whole 2-D object per write (measured: 6M variables instead of 0.3M) */
+#define SLOT(n) static char arena_slot##n[ARENA_CAP];
+SLOT(0) SLOT(1) SLOT(2) SLOT(3) SLOT(4) SLOT(5) SLOT(6) SLOT(7) SLOT(8) SLOT(9) SLOT(10) SLOT(11)
+SLOT(12) SLOT(13) SLOT(14) SLOT(15) SLOT(16) SLOT(17) SLOT(18) SLOT(19) SLOT(20) SLOT(21) SLOT(22) SLOT(23)
+static char *const arena[24] = {
+  arena_slot0, arena_slot1, arena_slot2, arena_slot3, arena_slot4, arena_slot5, arena_slot6, arena_slot7,
+  arena_slot8, arena_slot9, arena_slot10, arena_slot11, arena_slot12, arena_slot13, arena_slot14, arena_slot15,
+  arena_slot16, arena_slot17, arena_slot18, arena_slot19, arena_slot20, arena_slot21, arena_slot22, arena_slot23 };
+#if ARENA_SLOTS > 24
+#error "at most 24 arena slots"
+#endif
 static unsigned int arena_used = 0;
 
 static int arena_need(stralloc *x, unsigned int n)
